@@ -29,10 +29,10 @@ from fractions import Fraction
 PROPERTY = "C19"
 LEAN_MODULES = ["Proofs.C19", "Proofs.C19.Failure", "Proofs.C19.Process"]
 DRIVERS = ["driver_metrics"]
-RULE = ("1-4 scripted strategies out of 29 behaviours — trading: idle, add liquidity once/twice, add then remove, buy, sell, rebalance, add on a second "
-        "Uniswap market, failing operation, Aave supply, Aave supply+borrow, option buy / buy+sell / two buys of the same instrument in the same hourly "
+RULE = ("1-5 scripted strategies out of 31 behaviours — trading: idle, add liquidity once/twice, add then remove, buy, sell, rebalance, add on a second "
+        "Uniswap market, failing operation, Aave supply, Aave supply+borrow, Aave borrow-to-the-limit then a price drop in its own price table (liquidated), option buy / buy+sell / two buys of the same instrument in the same hourly "
         "bar (sizes: exactly the best level, more than it, small), Squeeth long / short vault, GLP buy / buy+sell; acting on what they see: add an "
-        "indicator column and trade on it, act on such a column if present, watcher (notes prices, status rows, best ask and trades by them); writing "
+        "indicator column and trade on it, act on such a column if present, watcher (notes prices, status rows, best ask and trades by them), process-state reader (results of divisions / roots / quantize / overflow / division by zero under the context it finds, everything a snapshot lists, and trades 1/3); writing "
         "into what they were handed: overwrite frame values in place, multiply a column of self.prices and set a cell by position, overwrite cells of "
         "every market's frame by position (and replace an order-book cell), decrement order-book levels nested in cells of self.data in place, write "
         "through snapshot.market_status / market.market_status (rows and nested lists), change the balances of their own account; ending their own "
@@ -48,8 +48,14 @@ TRUSTED = [
     "copy.deepcopy, DataFrame.copy(deep=False) under pandas copy-on-write (pandas >= 3, the installed version) and DataFrame.map give independent "
     "objects of the respective layer is assumed — the harness checks after every run that the manager's own frames (with the lists nested in their "
     "cells), its price frame and its configured markets are untouched",
-    "module-level / class-level state (of demeter: logging, decimal context, caches; of the strategy classes themselves) is outside the model and "
-    "outside the generated behaviours: a strategy that keeps state in its class or module is not covered",
+    "process-wide state is the layer G of the model (GStrat, managerRunG) and the hypothesis GIntact of C19_manager_isolated: of it the harness "
+    "measures, before and after every backtest, in the caller's process and in every pool worker, the decimal context (precision, rounding, traps, "
+    "Emin/Emax, capitals, clamp) and the class-level attributes of Snapshot (identity, keys, content hash) — a change is a violation by itself, and "
+    "the proc_reader behaviour turns it into a changed result; other module-level state (logging configuration, caches of third-party modules, the "
+    "strategy classes' own class attributes) is not enumerated: a strategy that keeps state in its class or module, or changes the decimal "
+    "context itself, falls outside GIntact and is not generated",
+    "the assignment of tasks to pool workers is observed (pid of every backtest, execution order per process) and handed to the model; that a "
+    "worker executes its tasks in submission order is checked per case (otherwise the assumed assignment is used and the case is counted)",
 ]
 ASSUMPTIONS = ["pandas copy-on-write isolates every in-place write into DataFrame.copy(deep=False) — measured on the installed pandas on every run (13 ways of "
                "writing: iloc/loc/at/iat, column arithmetic, slices, masks, update, fillna(inplace), raw buffer writes), not read off its version; if a "
@@ -70,7 +76,7 @@ T0 = "2023-08-15 00:00:00"
 GENERIC = ["idle", "watcher", "mut_prices", "mut_data", "mut_nested", "mut_status", "mut_assets", "trig_init", "trig_ctor", "mut_market", "raiser", "proc_reader"]
 UNI = ["add1", "add2", "addremove", "buy", "sell", "rebalance", "failing", "indicator", "follower", "vandal", "bad_price"]
 OPT = ["opt_buy", "opt_round", "opt_twice"]
-BEHAVIOURS = GENERIC + UNI + ["add_b", "aave_s", "aave_sb"] + OPT + ["sq_buy", "sq_short", "glp_buy", "glp_round"]
+BEHAVIOURS = GENERIC + UNI + ["add_b", "aave_s", "aave_sb", "aave_liq"] + OPT + ["sq_buy", "sq_short", "glp_buy", "glp_round"]
 
 
 def measure_cow():
@@ -123,7 +129,7 @@ def applicable(markets):
     if "uni_b" in markets:
         out += ["add_b"]
     if "aave" in markets:
-        out += ["aave_s", "aave_sb"]
+        out += ["aave_s", "aave_sb", "aave_liq"]
     if "deribit" in markets:
         out += OPT + OPT
     if "squeeth" in markets:
@@ -656,6 +662,21 @@ def make_strategy_class():
                     self._try("supply", lambda: self._m("aave").supply(self.tokens["weth"], Decimal("3"), True))
                 elif r == 2:
                     self._try("borrow", lambda: self._m("aave").borrow(self.tokens["usdc"], Decimal("800")))
+            elif b == "aave_liq":
+                # borrows close to its limit and then marks its collateral down in the price table of ITS OWN backtest (self.prices is the
+                # Actuator's private frame): from the next bar on the health factor is below 1 and the market liquidates the position
+                if r == 1:
+                    self._try("supply", lambda: self._m("aave").supply(self.tokens["weth"], Decimal("3"), True))
+                elif r == 2:
+                    self._try("borrow", lambda: self._m("aave").borrow(self.tokens["usdc"], Decimal("3500")))
+                elif r == 3:
+                    def crash():
+                        c, later = self.tokens["weth"].name, self.prices.index[4:]
+                        self.prices.loc[later, c] = [v * Decimal("0.55") for v in self.prices.loc[later, c]]
+                    self._try("crash", crash)
+                elif r == 6:
+                    m = self._m("aave")
+                    self.notes.append("after:" + json.dumps(canon({"supplies": m.supplies, "borrows": m.borrows}))[:400])
             # options: everybody trades the same instrument in the same hourly bar
             elif b in OPT and r == o1:
                 self._try("opt-buy", lambda: [[str(o.price), str(o.amount)] for o in self._m("deribit").buy(CALL, Decimal(self.arg))[0]])
@@ -976,7 +997,7 @@ def effect(case, behaviour, arg):
         at(names[0], 2)
     elif b == "add_b":
         at("uni_b")
-    elif b in ("aave_s", "aave_sb"):
+    elif b in ("aave_s", "aave_sb", "aave_liq"):
         at("aave")
     elif b in OPT:
         at("deribit")
@@ -990,7 +1011,7 @@ def effect(case, behaviour, arg):
     fill = {"opt_buy": 1, "opt_round": 2, "opt_twice": 2}.get(b, 0) * int(arg or 0) + (2 if b == "watcher" and has_nested else 0)
     user = (4 * hours if b == "mut_nested" else 2 if b == "mut_status" else 0) if has_nested else 0
     vals = 1 if b in ("vandal", "mut_data") else 0
-    return pos + [1 if b == "indicator" else 0, vals, user, fill, 1 if b == "mut_prices" else 0]
+    return pos + [1 if b == "indicator" else 0, vals, user, fill, 1 if b in ("mut_prices", "aave_liq") else 0]
 
 
 def judge_process(ctx, case, path, mgr, ordered):
@@ -1243,6 +1264,14 @@ def gen_cases(ctx):
     # a strategy that writes into the tables its market objects carry (Aave risk parameters), followed by strategies that borrow under them
     fixed(["uni_a", "aave"], 1, ["mut_market", "aave_sb", "idle"])
     fixed(["uni_a", "aave"], 2, ["aave_sb", "mut_market", "aave_sb"])
+    # process-wide state: strategies whose numbers depend on the decimal context and on what the Snapshot class holds, run after strategies that
+    # drive the code through its rarer paths (an Aave liquidation, refused calls, a failing backtest), in the caller's process and on reused workers
+    fixed(["uni_a", "aave"], 1, ["aave_liq", "proc_reader", "aave_sb"])
+    fixed(["uni_a", "aave"], 2, ["aave_liq", "aave_liq", "proc_reader", "proc_reader", "proc_reader"])
+    fixed(["uni_a"], 1, ["bad_price", "proc_reader", "raiser", "proc_reader"])
+    fixed(["uni_a", "deribit"], 1, ["opt_round", "proc_reader"], args=[0, None])
+    fixed(["gmx"], 2, ["glp_round", "proc_reader", "proc_reader"], windows=True)
+    fixed(["uni_sq", "squeeth"], 1, ["sq_short", "proc_reader"])
     # a strategy that ends its own backtest with an uncaught exception, first / in the middle / last, in-process and pooled
     fixed(["uni_a"], 1, ["raiser", "add1", "buy"])
     fixed(["uni_a"], 1, ["add1", "raiser", "buy"])
